@@ -265,26 +265,30 @@ example : safeMul (toWordSize 33) 32 = (64, false) := by decide
 /-- the size requested for an access `[off, off+len)` with `len > 0` is exactly `off + len`
 (no uint64 wrap-around when the overflow flag is clear) -/
 theorem memsize_is_touched_end (off l : Word) (sz : Nat) (hl : lo64 l ≠ 0)
-    (h : calcMemSize64 off l = (sz, false)) : lo64 off + lo64 l = sz ∧ sz < 2 ^ 64 :=
+    (h : calcMemSize64 off l = (sz, false)) :
+    lo64 off + lo64 l = sz ∧ sz < 2 ^ 64 ∧ isUint64 off = true :=
   calc_two hl h
 
 example : calcMemSize64 (32 : Word) (5 : Word) = (37, false) := by decide
 
-/-- Full statement: under a consistent table NO step reaches a Go run-time panic. -/
+/-- Full statement: under a consistent table NO step reaches a Go run-time panic (an empty-stack
+pop, a slice or index outside memory, the explicit `panic` in `Memory.Set`/`Set32`, the
+`returnData[offset64:end64]` slice). -/
 def FullStatementNoPanic : Prop :=
   ∀ (H : Bytes → Bytes) (t : Table) (p : GasParams) (f : Frame),
     tableOK t = true → step H t p f ≠ .fail .goPanic
 
-/-- Proved part: every instruction whose slot has no memory-size function (arithmetic,
-comparison, bitwise, shifts, PUSH/DUP/SWAP/POP, JUMP/JUMPI/JUMPDEST/PC/MSIZE/GAS, calldata/code
-size and CALLDATALOAD): the `minStack` check covers every pop.  The ten memory-touching
-functions are covered by `mem_resize_before_exec` + `memsize_is_touched_end` at the level of
-the resize law, their per-function bounds proof is not done (see design/C10.md). -/
-theorem no_go_panic_partial (H : Bytes → Bytes) (t : Table) (p : GasParams) (f : Frame)
-    (ht : tableOK t = true)
-    (hnm : ∀ info, t.get (getOp f.code f.pc) = some info → info.memSize = .none) :
-    step H t p f ≠ .fail .goPanic :=
-  step_no_goPanic_nomem H t p f ht hnm
+/-- **Proved at full strength**: the `minStack` check covers every pop (DUP/SWAP indices
+included), and for the ten memory-touching functions the interpreter's resize to the
+word-rounded size computed by the slot's `memorySize` function puts every access in bounds
+(`Proofs/Evm10NoPanic.lean`: `cover_one`, `cover_two`, `execOp_no_panic_mem`). -/
+theorem no_go_panic : FullStatementNoPanic :=
+  fun H t p f ht => step_no_goPanic H t p f ht
+
+/-- … in particular for each of the eight generated jump tables, whatever the frame. -/
+theorem no_go_panic_generated (H : Bytes → Bytes) (cfg : Nat) (p : GasParams) (f : Frame) :
+    step H (table cfg) p f ≠ .fail .goPanic :=
+  step_no_goPanic H (table cfg) p f (tables_ok cfg)
 
 example : tableOK (table 7) = true := tables_ok 7
 
